@@ -1,6 +1,7 @@
 //! fuzz_ingredient: [fmt] [opts] asset → `Builder::add_ingredient_from_stream`; when the ingredient is
 //! accepted and opts bit 1 is set, a tiny PNG is signed with it.
-//! opts: bit0 parentOf / componentOf, bit1 sign afterwards.
+//! opts: bit0 parentOf / componentOf, bit1 sign afterwards, bit2 automatic ingredient thumbnails on (the SDK
+//! default: the `image` crate decodes the untrusted bytes; the SDK caps the decoded size at 512 MiB).
 #![no_main]
 use std::io::Cursor;
 
@@ -17,7 +18,7 @@ fuzz_target!(init: fz::init("fuzz_ingredient"), |data: &[u8]| {
     let opts = data[1];
     let body = &data[2..];
     fz::guard(|| {
-        let ctx = fz::ctx();
+        let ctx = if opts & 4 != 0 { fz::ctx_thumbnails() } else { fz::ctx() };
         let Ok(mut b) = Builder::from_context(ctx).with_definition(DEF) else { return };
         let parent = opts & 1 == 0;
         let ing = if parent {
@@ -32,7 +33,7 @@ fuzz_target!(init: fz::init("fuzz_ingredient"), |data: &[u8]| {
         if accepted && opts & 2 != 0 {
             b.set_intent(if parent { BuilderIntent::Edit } else { BuilderIntent::Create(DigitalSourceType::Empty) });
             let png = vh::assets::synth_default("png");
-            let signer = vh::sdk::signer("ed25519");
+            let signer = fz::signer();
             let mut out = Cursor::new(Vec::new());
             if b.sign(signer.as_ref(), "image/png", &mut Cursor::new(png.bytes), &mut out).is_ok() {
                 fz::count("signed_with_ingredient");
